@@ -71,6 +71,10 @@ def key_dir(_unused=None) -> str:
                 fh.write(pem(n + suffix))
         with open(os.path.join(tmp, f"{n}_der.der"), "wb") as fh:
             fh.write(der(n))
+    for i in range(6):
+        for n in ("ed25519", "p256"):
+            with open(os.path.join(tmp, f"{n}_n{i}.pem"), "wb") as fh:
+                fh.write(pem(f"{n}_n{i}"))
     for n in ("aes", "aes_b"):
         with open(os.path.join(tmp, f"{n}.bin"), "wb") as fh:
             fh.write(aes_key(n))
